@@ -65,6 +65,39 @@ def _(c):
     c.ensure('chaining', val.eq(out, exp)); c.ensure('length', len(out) == Nb)
     c.ensure('caller-tweak-unchanged', val.eq(Ts.ival, SK.tweak(level=2) | pos))
 
+# ---------------------------------------------------------------- UBI: the two loops, one step from an ARBITRARY state (class I)
+@obligation(P, 'UBI.iterblocks/loop-step', cls='I', cases={'Nb': [32, 64, 128]}, funcs=['crysp.skein.UBI.iterblocks', 'crysp.skein.Tweak.Position', 'crysp.skein.Tweak.First'],
+            note='one iteration of the block loop for EVERY tweak value (position below 2^96 - block, any flags, any type/level) and every block: '
+                 'the block is handed out with the tweak whose position has advanced by one block and whose other fields are unchanged; afterwards only the First flag is cleared')
+def _(c):
+    from pyvc.sbytes import SBytesIO
+    Nb = c.case('Nb')
+    t0 = c.word('tweak', 128)
+    pos = t0 & mask(96)
+    c.assume(pos + Nb < (1 << 96))
+    blk = c.bytes('block', Nb)
+    u = skein.UBI(threefish.Threefish, bytes(Nb), skein.Tweak(Type='msg'))
+    Ts = skein.Tweak(); Ts.ival = t0
+    Pm = SBytesIO(blk) if c.mode == 'sym' else __import__('io').BytesIO(bytes(blk))
+    ys, loc = c.loop_body(skein.UBI.iterblocks, 0, {'self': u, 'M': None, 'bitlen': None, 'B': 0, 'l': None, 'lb': Nb, 'nb': None, 'rb': None, 'lp': 0, 'P': Pm, 'Ts': Ts, 'b': 0})
+    c.ensure('one-block', len(ys) == 1)
+    T1 = (t0 & ~mask(96) & mask(128)) | (pos + Nb)
+    c.ensure('tweak-handed-out', val.eq(list(ys[0][0]), val.le_bytes(T1, 16)))
+    c.ensure('block-handed-out', val.eq(list(ys[0][1]), list(blk)))
+    c.ensure('tweak-after', land(val.eq(loc['Ts'].ival, T1 & ~(1 << 126) & mask(128)), loc['Ts'].size == 128))
+
+@obligation(P, 'UBI.__call__/loop-step', cls='I', opaque=SK.NAMES, cases={'Nb': [32, 64, 128]}, funcs=['crysp.skein.UBI.__call__', 'crysp.mode.Mode.xorstr', 'crysp.threefish.Threefish.__init__'],
+            note='one iteration of the chaining loop for EVERY chaining value, tweak and block: H\' = Threefish(H, T).enc(m) xor m (Threefish through its contract, C02)')
+def _(c):
+    Nb = c.case('Nb'); nw = Nb // 8
+    install_threefish(c)
+    H = c.bytes('H', Nb); T = c.bytes('T', 16); m = c.bytes('m', Nb)
+    u = skein.UBI(threefish.Threefish, bytes(Nb), skein.Tweak(Type='msg'))
+    ys, loc = c.loop_body(skein.UBI.__call__, 0, {'self': u, 'M': None, 'bitlen': None, 'H': H, 'T': T, 'm': m})
+    exp = SK.E[nw](val.from_le(list(H)), val.from_le(list(T)), val.from_le(list(m))) ^ val.from_le(list(m))
+    c.ensure('chaining-step', val.eq(list(loc['H']), val.le_bytes(exp, Nb)))
+    c.ensure('length', len(loc['H']) == Nb)
+
 def _sk_cases(tier):
     out = []
     for Nb in (256, 512, 1024):
